@@ -314,3 +314,29 @@ func VerifHarness_C05_EditedOptions() {
 	verifReach("searched")
 	verifReach("done")
 }
+
+// NLP re-ranking sizes its candidate window from the limit: a cached answer for limit L is the
+// answer of an uncached search with limit L (not a prefix of a larger page)
+func VerifHarness_C05_NLPLimits() {
+	var cmds []Command
+	words := []string{"snapshot", "volume", "backup", "restore", "disk", "image", "clone", "mount"}
+	for i := 0; i < 40; i++ {
+		desc := "snapshot"
+		for k := 0; k <= i%5; k++ {
+			desc += " " + words[(i+k)%len(words)]
+		}
+		c := Command{Command: "snap" + string(rune('a'+i%26)) + string(rune('a'+i/26)), Description: desc, Keywords: []string{words[i%len(words)]}}
+		vFill(&c)
+		cmds = append(cmds, c)
+	}
+	db := &Database{Commands: cmds}
+	db.BuildUniversalIndex()
+	db.buildTFIDFSearcher()
+	cdb := NewCachedDatabase(db)
+	q := []string{"snapshot backup", "restore disk image"}[verifIntRange("query", 0, 1)]
+	o := SearchOptions{Limit: []int{1, 2, 3, 7, 12}[verifIntRange("limit", 0, 4)], UseNLP: true, AllPlatforms: true}
+	c05Compare(cdb.Database, cdb.SearchWithOptionsAndCache(q, o), q, o, "NLP search, first request")
+	c05Compare(cdb.Database, cdb.SearchWithOptionsAndCache(q, o), q, o, "NLP search, cached")
+	verifReach("searched")
+	verifReach("done")
+}
